@@ -23,9 +23,17 @@ func c13Token(kind int, label string) string {
 		return "{{-- c" + b1 + "d" + b2 + " --}}"
 	case 3:
 		return "{{ 1 +" + b1 + " 2" + b2 + "}}"
+	case 5: // block-style comment: the break comes straight after the opener and straight before the closer
+		return "{{--" + b1 + "c" + b2 + "--}}"
+	case 6: // the file / text run begins with the break
+		return b1 + "x" + b2 + "y"
+	case 7: // the string begins and ends with a break
+		return "{{ \"" + b1 + "p" + b2 + "\" }}"
 	}
 	return "@if(true" + b1 + ")z" + b2 + "@end"
 }
+
+const c13Kinds = 8
 
 var c13Faults = []string{
 	"{{ undefinedName }}",
@@ -56,7 +64,7 @@ func HarnessC13Line() {
 	nt := vParam("T")
 	src := ""
 	for i := 0; i < nt; i++ {
-		src += c13Token(vChoice("kind", 5), "t")
+		src += c13Token(vChoice("kind", c13Kinds), "t")
 	}
 	src += string([]byte{symBreak("gap")})
 	fault := c13Faults[vChoice("fault", len(c13Faults))]
@@ -82,7 +90,7 @@ var c13SplitFaults = [][2]string{
 // HarnessC13Split: the offending token of the faulty construct follows a symbolic line break inside the construct;
 // the reported line is the line on which that token ends.
 func HarnessC13Split() {
-	src := c13Token(vChoice("kind", 5), "t")
+	src := c13Token(vChoice("kind", c13Kinds), "t")
 	f := c13SplitFaults[vChoice("fault", len(c13SplitFaults))]
 	src += f[0] + string([]byte{symBreak("inner")})
 	want := 1 + countNewlines(src)
@@ -98,7 +106,7 @@ func HarnessC13Split() {
 // symbolic line breaks precedes the construct.
 func HarnessC13Files() {
 	vfsReset()
-	lead := c13Token(vChoice("kind", 5), "t") + string([]byte{symBreak("gap")})
+	lead := c13Token(vChoice("kind", c13Kinds), "t") + string([]byte{symBreak("gap")})
 	line := 1 + countNewlines(lead)
 	cwd := vfsCwd()
 	layout := "L[@reserve(\"r\")]"
